@@ -4,6 +4,7 @@ CONSTANTS
   K = 3
   Budget = 1
   KeepSsz = TRUE
+  MaxOps = 8
   UseResult = TRUE
 INVARIANTS TypeOK NoOrphan Reclaimed FreeIsEmpty
 CHECK_DEADLOCK FALSE
